@@ -319,6 +319,54 @@ def judge_month(val, expect):
     return [] if got == expect else [("month_accepted", f"{val!r} -> {expect}", got)]
 
 
+CLI_CASES = [
+    (["-n", "1"], {"simulation.thrown_events": 1}),
+    (["-n", "1e5"], {"simulation.thrown_events": 100000}),
+    (["--monospectrum", "11.5"], {"simulation.spectrum.id": "monospectrum", "simulation.spectrum.log_nu_energy": 11.5}),
+    (["--powerspectrum", "2.2", "7", "11"], {"simulation.spectrum.id": "powerspectrum", "simulation.spectrum.index": 2.2, "simulation.spectrum.lower_bound": 7.0, "simulation.spectrum.upper_bound": 11.0}),
+    (["--powerspectrum", "1", "6", "12", "-n", "7"], {"simulation.spectrum.id": "powerspectrum", "simulation.spectrum.index": 1.0, "simulation.thrown_events": 7}),
+    (["--nocloud"], {"simulation.cloud_model.id": "no_cloud"}),
+    (["--monocloud", "3.7"], {"simulation.cloud_model.id": "monocloud", "simulation.cloud_model.altitude": 3.7}),
+    (["--pressuremapcloud", "7"], {"simulation.cloud_model.id": "pressure_map", "simulation.cloud_model.month": 7}),
+    (["--pressuremapcloud", "December"], {"simulation.cloud_model.id": "pressure_map", "simulation.cloud_model.month": 12}),
+    (["--pressuremapcloud", "Feb", "--monospectrum", "9.25"], {"simulation.cloud_model.month": 2, "simulation.spectrum.log_nu_energy": 9.25}),
+]
+
+
+def judge_create_cli(i, tmp):
+    """the `nuspacesim create-config` command writes a TOML file that reads back as the default configuration with
+    exactly the requested overrides"""
+    from click.testing import CliRunner
+
+    from nuspacesim.apps.create_config import create_config
+    from nuspacesim.config import NssConfig, config_from_toml
+
+    args, exp = CLI_CASES[i]
+    fn = os.path.join(tmp, f"cli_{i}.toml")
+    res = CliRunner().invoke(create_config, args + [fn])
+    if res.exit_code != 0 or not os.path.exists(fn):
+        return [("create_config_cli", f"{args} writes a file", f"exit {res.exit_code}: {str(res.exception)[:100]}")]
+    try:
+        c = config_from_toml(fn)
+    except Exception as ex:
+        return [("create_config_cli", f"{args} readable", f"{type(ex).__name__}: {str(ex)[:100]}")]
+    got = flatten(c)
+    base = flatten(NssConfig())
+    if "simulation.thrown_events" not in exp:
+        base["simulation.thrown_events"] = 100  # the command's documented default count
+    out = []
+    for k, v in exp.items():
+        if k not in got or not same(k, got[k], v if not isinstance(v, int) or isinstance(got.get(k), int) else float(v)):
+            out.append(("create_config_cli", f"{args}: {k}={v!r}", repr(got.get(k))))
+    for k, v in base.items():
+        if k in exp or k.startswith("simulation.spectrum.") and any(e.startswith("simulation.spectrum.") for e in exp) or k.startswith("simulation.cloud_model.") and any(e.startswith("simulation.cloud_model.") for e in exp):
+            continue
+        if k not in got or not same(k, got[k], v):
+            out.append(("create_config_cli", f"{args}: untouched field {k}={v!r}", repr(got.get(k))))
+            break
+    return out
+
+
 def run(ctx):
     tier = ctx.tier
     tmp = tempfile.mkdtemp(prefix="nssmc_c15_")
@@ -392,6 +440,10 @@ def run(ctx):
             ctx.tick(1, ("band", i))
             for c, e, o in judge_band(i):
                 ctx.violation(c, {"kind": "band", "i": i}, e, o)
+        for i in range(len(CLI_CASES)):
+            ctx.tick(1, ("create_cli", i))
+            for c, e, o in judge_create_cli(i, tmp):
+                ctx.violation(c, {"kind": "create_cli", "i": i}, e, o)
         acc, rej = month_alphabet()
         for val, m in acc:
             ctx.tick(1, ("month", repr(val)))
@@ -411,6 +463,12 @@ def replay(case):
         tmp = tempfile.mkdtemp(prefix="nssmc_c15r_")
         try:
             return judge_roundtrip(case["spec"], case["cloud"], [tuple(x) for x in case["ov"]], tmp) or []
+        finally:
+            shutil.rmtree(tmp, ignore_errors=True)
+    if k == "create_cli":
+        tmp = tempfile.mkdtemp(prefix="nssmc_c15r_")
+        try:
+            return judge_create_cli(case["i"], tmp)
         finally:
             shutil.rmtree(tmp, ignore_errors=True)
     if k == "unit":
